@@ -156,7 +156,13 @@ def c01(ctx):
             if hl == 4 and len(sb) > 5000:
                 hl = 8
             cmd = [bita, "compress", "--hash-length", str(hl), "--buffered-chunks", str([1, 2, 8][i % 3])] + ca + pa
-            if inp == "file":
+            if inp == "file" and i % 5 == 2:
+                # every 5th file case: the input path is a named pipe (no size to stat, delivered in pipe-sized pieces)
+                detail["input"] = inp = "named pipe given with -i"
+                fifo = os.path.join(d, "in.fifo")
+                os.mkfifo(fifo)
+                r = run_with_fifo(cmd + ["-i", fifo, arc], fifo, sb)
+            elif inp == "file":
                 r = sh(cmd + ["-i", src, arc])
             else:
                 r = sh(cmd + [arc], stdin_data=sb)
@@ -205,7 +211,7 @@ def c01(ctx):
         big_source(bita, root, viol, cov)
     shutil.rmtree(root, ignore_errors=True)
     cov.update({"evaluations": len(cases), "distinct_nontrivial": len(distinct), "exhaustive": True, "samples": samples,
-                "rule": "real binary: {fixed, rollsum, buzhash, default parameters} x {none, brotli, zstd, lzma} x {empty, 1 byte, 40 B, 3 kB, 5 kB zeros (thorough: + >1 MiB)} x {file input, stdin input (quick: every 3rd)}: bita compress -> bita clone --verify-output (local / HTTP alternating) -> bytes, exit status, temp file removed, bita info; clones over HTTP with the connection dropped inside the chunk data at 7 positions (retry budget 3); a source of 70 000 unique 4-byte chunks (indexes beyond 2^16) compressed and cloned (thorough: re-cloned in place over its reverse); thorough: a sparse source of 4 GiB + 3 MiB + 12345 bytes with distinct chunks below / at / above offset 2^32, compressed, cloned and re-cloned in place over a prior output with two of them swapped; non-trivial = distinct cells that ran to the end"})
+                "rule": "real binary: {fixed, rollsum, buzhash, default parameters} x {none, brotli, zstd, lzma} x {empty, 1 byte, 40 B, 3 kB, 5 kB zeros (thorough: + >1 MiB)} x {file input (every 5th through a named pipe given with -i), stdin input (quick: every 3rd)}: bita compress -> bita clone --verify-output (local / HTTP alternating) -> bytes, exit status, temp file removed, bita info; clones over HTTP with the connection dropped inside the chunk data at 7 positions (retry budget 3); a source of 70 000 unique 4-byte chunks (indexes beyond 2^16) compressed and cloned (thorough: re-cloned in place over its reverse); thorough: a sparse source of 4 GiB + 3 MiB + 12345 bytes with distinct chunks below / at / above offset 2^32, compressed, cloned and re-cloned in place over a prior output with two of them swapped; non-trivial = distinct cells that ran to the end"})
     return result(ctx["pid"], "exploration", cov, viol, t0, ["A5: real binary observed at process boundary"])
 
 
@@ -563,6 +569,10 @@ LAYOUTS = [
     ("complete-with-duplicate", "AABC", "AABC"),
     ("duplicate-before-wanted", "ABCA", "AA-BC"),
     ("triple-then-moved", "AAAB", "BAAA"),
+    # nothing moves, only the first / the last chunk is missing
+    ("first-chunk-differs", "ABCD", "-BCD"),
+    ("last-chunk-differs", "ABCD", "ABC-"),
+    ("first-chunk-differs-longer-prior", "ABC", "-BC--"),
 ]
 
 
@@ -803,7 +813,116 @@ def c03(ctx):
 
 
 def c06(ctx):
-    return _inplace(ctx, "C06", True)
+    res = _inplace(ctx, "C06", True)
+    t0 = time.time()
+    bita = ctx["bita"]
+    root = tempfile.mkdtemp(prefix="verif-c06x-")
+    viol = Viol("c06")
+    n = 0
+    try:
+        # (a) rolling-hash archives whose last chunk is shorter than the minimum, cloned with the source itself as
+        #     seed over HTTP: nothing but the header may be requested
+        S = pattern(20040, 5)
+        cargs = ["--hash-chunking", "RollSum", "--rolling-window-size", "16B", "--min-chunk-size", "64B", "--avg-chunk-size", "256B", "--max-chunk-size", "1KiB", "--compression", "none"]
+        files = {}
+        cases = []
+        for extra in range(0, 40, 3):
+            St = S[:20000 + extra]
+            d = os.path.join(root, f"t{extra}")
+            os.makedirs(d)
+            src, arc = os.path.join(d, "s.bin"), os.path.join(d, "a.cba")
+            with open(src, "wb") as f:
+                f.write(St)
+            r = sh([bita, "compress", "-i", src, arc] + cargs)
+            if r.returncode != 0:
+                raise RuntimeError("compress failed: " + r.stderr.decode())
+            with open(arc, "rb") as f:
+                files[f"t{extra}.cba"] = f.read()
+            cases.append((extra, d, src, arc, St))
+        with RangeServer(files) as srv:
+            for extra, d, src, arc, St in cases:
+                for how in ("file", "stdin"):
+                    tag = f"tail={extra:03d}{how}"
+                    argv = [bita, "clone", "--seed", src if how == "file" else "-", srv.url(f"t{extra}.cba", tag), os.path.join(d, f"out-{how}.bin")]
+                    r = sh(argv, stdin_data=St if how == "stdin" else None)
+                    n += 1
+                    reqs = [rg for (_t, rg) in srv.requests_for(tag)]
+                    detail = {"case": "seed == source, last chunk possibly shorter than the minimum", "source_bytes": len(St), "seed_given_as": how, "requests": reqs}
+                    if r.returncode != 0:
+                        viol.add("valid-clone-failed", dict(detail, stderr=r.stderr.decode()[-300:]))
+                    elif len(reqs) > 2:
+                        viol.add("available-chunk-fetched", detail)
+        # (b) a LOCAL archive: the byte ranges read from the archive file (strace) lie inside the header and the stored
+        #     ranges of the chunks that are really missing
+        import re
+        words_src = words("ABCDEFGHAB") + b"xy"
+        d = os.path.join(root, "local")
+        os.makedirs(d)
+        src, arc = os.path.join(d, "s.bin"), os.path.join(d, "a.cba")
+        with open(src, "wb") as f:
+            f.write(words_src)
+        r = sh([bita, "compress", "--fixed-size", "4B", "--compression", "none", "-i", src, arc])
+        if r.returncode != 0:
+            raise RuntimeError("compress failed: " + r.stderr.decode())
+        alen = os.path.getsize(arc)
+        uniq = []
+        for j in range(0, len(words_src), 4):
+            w = words_src[j:j + 4]
+            if w not in uniq:
+                uniq.append(w)
+        hdr = alen - sum(len(w) for w in uniq)
+        offs = {}
+        o = hdr
+        for w in uniq:
+            offs[w] = (o, o + len(w))
+            o += len(w)
+        for sname, seedb in (("no-seed", None), ("all-but-two", words("ABCDEFAB")), ("everything", words_src), ("only-tail-and-H", b"xy" + words("H"))):
+            out, log = os.path.join(d, f"o-{sname}.bin"), os.path.join(d, f"{sname}.trace")
+            argv = ["strace", "-f", "-qq", "-P", arc, "-e", "trace=read,pread64,lseek", "-o", log, bita, "clone"]
+            if seedb is not None:
+                sp = os.path.join(d, f"seed-{sname}.bin")
+                with open(sp, "wb") as f:
+                    f.write(seedb)
+                argv += ["--seed", sp]
+            r = sh(argv + [arc, out])
+            n += 1
+            have = set() if seedb is None else {seedb[j:j + 4] for j in range(0, len(seedb), 4)}
+            allowed = [(0, hdr)] + [offs[w] for w in uniq if w not in have]
+            pos, ranges = 0, []
+            for line in open(log, errors="replace"):
+                line = line.split(None, 1)[1] if line[:1].isdigit() else line
+                if "= " not in line:
+                    continue
+                try:
+                    ret = int(line.rsplit("= ", 1)[1].split()[0])
+                except ValueError:
+                    continue
+                if line.startswith("lseek("):
+                    pos = ret
+                elif line.startswith("read(") and ret > 0:
+                    ranges.append((pos, pos + ret))
+                    pos += ret
+                elif line.startswith("pread64(") and ret > 0:
+                    m = re.search(r",\s*(\d+)\)\s*=", line)
+                    if m:
+                        ranges.append((int(m.group(1)), int(m.group(1)) + ret))
+            detail = {"case": "local archive, seed " + sname, "header_bytes": hdr, "reads_of_the_archive_file": ranges[:12], "allowed": allowed}
+            if r.returncode != 0:
+                viol.add("valid-clone-failed", dict(detail, stderr=r.stderr.decode()[-300:]))
+                continue
+            stray = [rg for rg in ranges if not any(a <= rg[0] and rg[1] <= b for a, b in allowed)
+                     # a run of adjacent missing chunks is read in one piece
+                     and not all(any(a <= x < b for a, b in allowed) for x in range(rg[0], rg[1]))]
+            if stray:
+                viol.add("read-outside-header-and-missing-chunks", dict(detail, stray=stray[:6]))
+    finally:
+        shutil.rmtree(root, ignore_errors=True)
+    res["coverage"]["evaluations"] += n
+    res["coverage"]["tail_and_local_read_cases"] = n
+    res["coverage"]["rule"] += "; plus RollSum archives of 14 source lengths (last chunk shorter than the minimum) cloned over HTTP with the source itself as seed file / stdin seed: only the header is requested; plus a local archive under strace with 4 seeds: every byte read from the archive file lies in the header or in the stored range of a chunk that is really missing"
+    res["violation_classes"] += viol.list()
+    res["wall_s"] += time.time() - t0
+    return res
 
 
 # ------------------------------------------------------------------ C11: `bita info` reports what was requested
@@ -1271,7 +1390,31 @@ def c09(ctx):
         S = pattern(40000, 3)
         chunkers = [("rollsum", ["--hash-chunking", "RollSum", "--rolling-window-size", "16B", "--min-chunk-size", "64B", "--avg-chunk-size", "256B", "--max-chunk-size", "1KiB"]),
                     ("buzhash", ["--hash-chunking", "BuzHash", "--rolling-window-size", "16B", "--min-chunk-size", "64B", "--avg-chunk-size", "256B", "--max-chunk-size", "1KiB"]),
-                    ("fixed", ["--fixed-size", "512B"])]
+                    ("fixed", ["--fixed-size", "512B"]),
+                    # a minimum chunk size below the window size is a valid configuration too
+                    ("rollsum-min-below-window", ["--hash-chunking", "RollSum", "--rolling-window-size", "64B", "--min-chunk-size", "16B", "--avg-chunk-size", "128B", "--max-chunk-size", "1KiB"]),
+                    ("buzhash-min-below-window", ["--hash-chunking", "BuzHash", "--rolling-window-size", "48B", "--min-chunk-size", "8B", "--avg-chunk-size", "64B", "--max-chunk-size", "512B"])]
+        # D0 for sources that end in a chunk shorter than the minimum (and shorter than one fixed chunk)
+        for cname, cargs in chunkers:
+            for extra in range(1, 40, 3):
+                St = S[:20000 + extra]
+                dd = os.path.join(root, f"tail-{cname}-{extra}")
+                os.makedirs(dd)
+                src, arc = os.path.join(dd, "s.bin"), os.path.join(dd, "a.cba")
+                with open(src, "wb") as f:
+                    f.write(St)
+                r = sh([bita, "compress", "--compression", "none", "-i", src, arc] + cargs)
+                if r.returncode != 0:
+                    raise RuntimeError("compress failed: " + r.stderr.decode())
+                r = sh([bita, "clone", "--seed", src, arc, os.path.join(dd, "o.bin")])
+                n += 1
+                u = used(r)
+                if r.returncode != 0:
+                    viol.add("valid-clone-failed", {"chunker": cname, "source_bytes": len(St), "stderr": r.stderr.decode()[-300:]})
+                elif u != len(St):
+                    viol.add("chunks-of-the-source-differ-between-compress-and-clone", {"chunker": cname, "source_bytes": len(St), "bytes_from_seed_equal_to_source": u})
+                distinct.add((cname, "tail", extra))
+                shutil.rmtree(dd, ignore_errors=True)
         for cname, cargs in chunkers:
             d = os.path.join(root, cname)
             os.makedirs(d)
@@ -1286,6 +1429,10 @@ def c09(ctx):
             base = used(r)
             if r.returncode != 0 or base is None:
                 raise RuntimeError("baseline clone failed / report line not understood: " + r.stdout.decode()[-200:])
+            # D0: re-chunking the source itself at clone time gives the chunks compress made: everything is found
+            n += 1
+            if base != len(S):
+                viol.add("chunks-of-the-source-differ-between-compress-and-clone", {"chunker": cname, "source_bytes": len(S), "bytes_from_seed_equal_to_source": base})
             # D1: an unrelated seed before or after B changes nothing
             for k in (1, 63, 1001, 4097):
                 A = os.path.join(d, f"A{k}.bin")
@@ -1327,12 +1474,71 @@ def c09(ctx):
     finally:
         shutil.rmtree(root, ignore_errors=True)
     cov = {"evaluations": n, "cli_context_cases": n, "distinct_nontrivial": len(distinct), "exhaustive": True,
-           "rule": "real binary, differential: a 40 kB source under {RollSum, BuzHash, FixedSize}; the bytes the clone reports as taken from seeds with seed B alone must equal those with an unrelated seed of 1 / 63 / 1001 / 4097 bytes given before B, after B, or twice before B; and the same bytes {junk+source+tail, rotated source, first half} must yield the same reuse as a seed file and as prior output (--seed-output)"}
+           "rule": "real binary, differential: a 40 kB source under {RollSum, BuzHash, FixedSize, RollSum / BuzHash with the minimum below the window}; a clone seeded with the source itself takes every byte from the seed (13 source lengths per chunker, so that the last chunk is shorter than the minimum); the bytes the clone reports as taken from seeds with seed B alone must equal those with an unrelated seed of 1 / 63 / 1001 / 4097 bytes given before B, after B, or twice before B; and the same bytes {junk+source+tail, rotated source, first half} must yield the same reuse as a seed file and as prior output (--seed-output)"}
+    return result(ctx["pid"], "exploration", cov, viol, t0, ["A5; the command's own report line is the observation"])
+
+
+# ------------------------------------------------------------------ C10 at the command line: shared data behind differing prefixes is found
+
+def c10(ctx):
+    """new = P1+S cloned with old = P2+S as seed file and as prior output (|P2| > |P1|, so S sits further back and the
+    old data is longer than the new): once the boundaries have resynchronised every chunk of S is found, i.e. the
+    bytes fetched from the archive are bounded by |P1| plus a few chunks."""
+    import re
+    t0 = time.time()
+    bita = ctx["bita"]
+    root = tempfile.mkdtemp(prefix="verif-c10-")
+    viol = Viol("c10")
+    n = 0
+    distinct = set()
+
+    def fetched(r):
+        m = re.search(r"using (?:[0-9.]+ [KMG]iB \()?(\d+) bytes\)? from archive", r.stdout.decode(errors="replace"))
+        return int(m.group(1)) if m else None
+
+    try:
+        S = pattern(60000, 17)
+        P1 = bytes((i * 29 + 7) % 253 for i in range(4096))
+        chunkers = [("rollsum", ["--hash-chunking", "RollSum", "--rolling-window-size", "16B", "--min-chunk-size", "64B", "--avg-chunk-size", "256B", "--max-chunk-size", "1KiB"], 1024),
+                    ("buzhash", ["--hash-chunking", "BuzHash", "--rolling-window-size", "16B", "--min-chunk-size", "64B", "--avg-chunk-size", "256B", "--max-chunk-size", "1KiB"], 1024)]
+        for cname, cargs, maxc in chunkers:
+            d = os.path.join(root, cname)
+            os.makedirs(d)
+            src, arc = os.path.join(d, "new.bin"), os.path.join(d, "a.cba")
+            with open(src, "wb") as f:
+                f.write(P1 + S)
+            r = sh([bita, "compress", "--compression", "none", "-i", src, arc] + cargs)
+            if r.returncode != 0:
+                raise RuntimeError("compress failed: " + r.stderr.decode())
+            bound = len(P1) + 4 * maxc
+            for p2len in (4097, 5000, 9001, 20000):
+                P2 = bytes((i * 31 + p2len) % 251 for i in range(p2len))
+                for how in ("seed-file", "prior-output"):
+                    old = os.path.join(d, f"old-{p2len}-{how}.bin")
+                    with open(old, "wb") as f:
+                        f.write(P2 + S)
+                    if how == "seed-file":
+                        r = sh([bita, "clone", "--seed", old, arc, os.path.join(d, f"out-{p2len}.bin")])
+                    else:
+                        r = sh([bita, "clone", "--seed-output", arc, old])
+                    n += 1
+                    fb = fetched(r)
+                    detail = {"chunker": cname, "new_prefix_bytes": len(P1), "old_prefix_bytes": p2len, "shared_bytes": len(S), "old_data_given_as": how,
+                              "bytes_fetched_from_archive": fb, "bound": bound}
+                    if r.returncode != 0 or fb is None:
+                        viol.add("valid-clone-failed", dict(detail, stderr=r.stderr.decode()[-300:]))
+                    elif fb > bound:
+                        viol.add("shared-data-behind-a-different-prefix-not-found", detail)
+                    distinct.add((cname, p2len, how))
+    finally:
+        shutil.rmtree(root, ignore_errors=True)
+    cov = {"evaluations": n, "cli_resync_cases": n, "distinct_nontrivial": len(distinct), "exhaustive": True,
+           "rule": "real binary: new = P1+S (4 KiB + 60 kB) cloned with old = P2+S, |P2| in {4097, 5000, 9001, 20000}, given as seed file and as prior output, RollSum and BuzHash: the bytes fetched from the archive stay below |P1| + 4 maximal chunks (every chunk of S after the resynchronisation point is found)"}
     return result(ctx["pid"], "exploration", cov, viol, t0, ["A5; the command's own report line is the observation"])
 
 
 def replay(ctx, detail):
-    fn = {"c09": c09, "c01": c01, "c02": c02, "c03": c03, "c06": c06, "c11": c11, "c12": c12, "c13": c13}[detail.get("function", "c01")]
+    fn = {"c10": c10, "c09": c09, "c01": c01, "c02": c02, "c03": c03, "c06": c06, "c11": c11, "c12": c12, "c13": c13}[detail.get("function", "c01")]
     res = fn(dict(ctx, tier="quick"))
     return bool(res["violation_classes"])
 
@@ -1342,5 +1548,5 @@ if __name__ == "__main__":
     import sys
     fn = sys.argv[1]
     tier = sys.argv[2] if len(sys.argv) > 2 else "quick"
-    r = {"c09": c09, "c01": c01, "c02": c02, "c03": c03, "c06": c06, "c11": c11, "c12": c12, "c13": c13}[fn]({"pid": fn.upper(), "tier": tier, "seed": 0, "bita": "/verif/build/bita/release/bita", "vh": "", "verif": "/verif", "build": "/verif/build"})
+    r = {"c10": c10, "c09": c09, "c01": c01, "c02": c02, "c03": c03, "c06": c06, "c11": c11, "c12": c12, "c13": c13}[fn]({"pid": fn.upper(), "tier": tier, "seed": 0, "bita": "/verif/build/bita/release/bita", "vh": "", "verif": "/verif", "build": "/verif/build"})
     print(json.dumps(r, indent=1)[:5000])
